@@ -30,6 +30,8 @@ def _leaf(fn):
 
 
 def run(ctx, obs):
+    from ..rules import sweeps
+    sweeps.run(ctx, obs, 'C06')
     sib_tests(ctx, obs)
     result_fwd(ctx, obs)
     uniform(ctx, obs)
